@@ -197,9 +197,8 @@ class SyncedList(SyncedCollection, MutableSequence):
         data = _convert_numpy(data)
         if _sequence_resolver.get_type(data) == "SEQUENCE":
             if self._root is None:
-                with self._thread_lock:
+                with self._lock_and_save:
                     self._update(data)
-                    self._save()
             else:
                 with self._load_and_save:
                     self._update(data)
@@ -265,9 +264,8 @@ class SyncedList(SyncedCollection, MutableSequence):
         if self._root is None:
             # The root does not load first: clearing is also the way to recover
             # from an unreadable resource. The change is made under the lock.
-            with self._thread_lock:
+            with self._lock_and_save:
                 self._data.clear()
-                self._save()
         else:
             with self._load_and_save:
                 self._data.clear()
